@@ -260,7 +260,7 @@ var properties = map[string]*Property{
 			Race:       true,
 			Instrument: []string{"internal/rules/mechanisms/finalizers/jwt_signer.go:locks+yields", "internal/rules/mechanisms/finalizers/jwt_finalizer.go:yields"},
 			Params:     map[string]string{"prop": "C19"},
-			Quick:      Tier{Runs: 1000, BudgetS: 100},
+			Quick:      Tier{Runs: 800, BudgetS: 60},
 			Thorough:   Tier{Runs: 40000, BudgetS: 900},
 		}, {
 			Name: "provider-fs-conc", Property: "C19", Pkg: "./internal/rules/provider/filesystem", Test: "TestVerifFSConc",
@@ -270,21 +270,37 @@ var properties = map[string]*Property{
 			Quick:      Tier{Runs: 4000, BudgetS: 60},
 			Thorough:   Tier{Runs: 200000, BudgetS: 600},
 		}, {
+			Name: "reload-tls", Property: "C19", Pkg: "./internal/x/tlsx", Test: "TestVerifReloadTLS",
+			Dirs:       []string{"internal/x/tlsx"},
+			Files:      []string{"zz_verif_reload_test.go"},
+			Race:       true,
+			Instrument: []string{"internal/x/tlsx/key_store.go:locks+yields"},
+			Quick:      Tier{Runs: 1000, BudgetS: 60},
+			Thorough:   Tier{Runs: 40000, BudgetS: 600},
+		}, {
+			Name: "reload-httpsig", Property: "C19", Pkg: "./internal/rules/endpoint/authstrategy", Test: "TestVerifReloadHTTPSig",
+			Dirs:       []string{"internal/rules/endpoint/authstrategy"},
+			Files:      []string{"zz_verif_reload_test.go"},
+			Race:       true,
+			Instrument: []string{"internal/rules/endpoint/authstrategy/http_message_signatures.go:locks+yields"},
+			Quick:      Tier{Runs: 1000, BudgetS: 60},
+			Thorough:   Tier{Runs: 40000, BudgetS: 600},
+		}, {
 			Name: "robust-sim", Property: "C19", Pkg: "./internal/verifsim/pipesim", Test: "TestVerifRobust",
 			Dirs:       append([]string{"internal/verifsim/pipesim"}, exportDirs...),
 			Files:      []string{"zz_verif_pipe_test.go", "zz_verif_robust_test.go"},
 			Instrument: []string{"internal/handler/proxy/request_context.go:dialer"},
-			Quick:      Tier{Runs: 9000, BudgetS: 100},
+			Quick:      Tier{Runs: 9000, BudgetS: 60},
 			Thorough:   Tier{Runs: 400000, BudgetS: 1200},
 		}},
 		Rule: "one case = (signer-reload) one seeded schedule of token issuing, JWKS reads and key-store rewrites with torn prefixes exposed at notifications, empty / garbage / certificate-only / unsupported-key (RSA-1024, Ed25519) / wrong-key-usage contents and duplicated root certificates, under the scheduler and the race detector; (robust-sim) one of: a sequence of 1-4 truncated (byte or line offset) or type-confused (one or two YAML nodes replaced by a value of another kind) rule sets through the real parser, processor and rule factory with a previously loaded rule that must keep answering; 1-3 requests whose remote answers are truncated, byte-flipped, type-confused or emptied and whose tokens are malformed, through the three entry points; 1-4 requests with odd paths and header values. Non-trivial/distinct = distinct traces / schedule signatures.",
-		Real: []string{"jwt signer hot reload, keystore, pkix", "rule set parser, decoder, rule factory, repository", "all mechanisms on corrupted answers", "the three entry points incl. recovery middleware / interceptor"},
-		Stub: []string{"fsnotify watcher -> simWatcher", "remote parties with content-altering fault plan", "TLS key store / http_message_signatures / trust store hot reload are not driven separately: they share keystore.NewKeyStoreFromPEMFile, whose empty-store and chain-recursion defects were fixed centrally"},
+		Real: []string{"jwt signer, TLS key store and http_message_signatures hot reload, keystore, pkix", "file_system provider event handling with the writer interleaved inside it", "rule set parser, decoder, rule factory, repository", "all mechanisms on corrupted answers", "the three entry points incl. recovery middleware / interceptor"},
+		Stub: []string{"fsnotify watcher -> simulated watcher dispatching OnChanged as scheduler tasks", "remote parties with content-altering fault plan", "inotify events of the file_system provider (fed to ruleSetsChanged by a task)", "Redis file credentials and trust store reloads are not driven (the trust store has no hot reload; the Redis credentials file is YAML decoded into a plain struct)"},
 		Assumptions: []string{
 			"a crash is a panic escaping a load path or entry point, a task panic of a reload goroutine, or the death of the harness process (attributed and minimised by re-execution)",
 			"request lines net/http itself rejects (unparsable URL) are not sent",
 			"the rule provider paths (file system, HTTP endpoint, Kubernetes informer) are covered for crashes by the C18 harnesses, whose process deaths are reported the same way",
 		},
-		MustBePositive: []string{"robust-sim/ruleset-accepted", "robust-sim/ruleset-rejected-by-factory", "robust-sim/ruleset-rejected-by-parser", "robust-sim/fault:type-confuse", "signer-reload/fault:torn-write-exposed"},
+		MustBePositive: []string{"robust-sim/ruleset-accepted", "robust-sim/ruleset-rejected-by-factory", "robust-sim/ruleset-rejected-by-parser", "robust-sim/fault:type-confuse", "signer-reload/fault:torn-write-exposed", "reload-tls/reloads", "reload-httpsig/reloads", "provider-fs-conc/processor-calls"},
 	},
 }
